@@ -11,10 +11,12 @@
       a function returns with what it was entered with.
 
    2. [sys]: any number of goroutines, each with the (instance-level) lock operations it
-      is going to perform, under Go's RWMutex semantics: RLock blocks while a writer holds
-      or has announced itself (writer preference), Lock first takes the writers' mutex
-      (announce), then waits until the readers are gone; WaitGroup.Wait blocks until its
-      target goroutines have finished. *)
+      is going to perform, under the semantics of Go's sync.RWMutex as implemented (readerCount /
+      readerWait / the two semaphores): Lock first takes the writers' mutex and announces itself
+      (from then on arriving readers queue: writer preference), then waits until the readers it
+      found are gone; Unlock wakes every queued reader; a wake-up is anonymous and may be consumed by
+      a reader arriving later; WaitGroup.Wait blocks until its target goroutines have finished.
+      Corr/LocksCorr.v compares this semantics step by step with the sync package in use. *)
 From Coq Require Import List Bool Arith.
 Import ListNotations.
 
@@ -27,40 +29,52 @@ Definition mode_eqb (a b : mode) : bool :=
 Inductive gop :=
 | GAcq (m : mode) (l : nat)      (* RLock / Lock on lock instance l *)
 | GRel (m : mode) (l : nat)      (* RUnlock / Unlock *)
-| GWait (js : list nat).         (* wg.Wait(): until the goroutines js have finished *)
+| GWait (js : list nat)          (* wg.Wait(): until the goroutines js have finished *)
+| GUse (w : bool) (l : nat).     (* an access (w: a write) to data guarded by lock instance l *)
 
+(* ann: the goroutine has called Lock / RLock and is registered as waiting: a writer holds the
+   writers' mutex and has announced itself to the readers; a reader found a writer present, has
+   been counted and sleeps on the readers' semaphore (it is "queued") *)
 Record th := { todo : list gop; held : list (mode * nat); ann : bool }.
-Definition sys := list th.
+(* gr l: wake-ups of the readers' semaphore of lock l that have not been consumed yet.  Unlock
+   releases one per queued reader; they are anonymous: a reader that arrives while the next writer
+   is already announced may consume one ("barging"), the reader it was meant for then sleeps on *)
+Record sys := { ths : list th; gr : nat -> nat }.
 
 Definition holds (m : mode) (l : nat) (t : th) : bool :=
   existsb (fun h => mode_eqb (fst h) m && Nat.eqb (snd h) l) (held t).
 Definition holds_any (l : nat) (t : th) : bool := existsb (fun h => Nat.eqb (snd h) l) (held t).
-(* the goroutine holds the writers' mutex of l and has announced itself to the readers *)
 Definition announced (l : nat) (t : th) : bool :=
   ann t && match todo t with GAcq W l' :: _ => Nat.eqb l l' | _ => false end.
+Definition queued (l : nat) (t : th) : bool :=
+  ann t && match todo t with GAcq R l' :: _ => Nat.eqb l l' | _ => false end.
+Definition writer (l : nat) (t : th) : bool := holds W l t || announced l t.
 
-Fixpoint anyother_from (i : nat) (s : sys) (k : nat) (p : th -> bool) : bool :=
+Fixpoint anyother_from (i : nat) (s : list th) (k : nat) (p : th -> bool) : bool :=
   match s with
   | [] => false
   | t :: r => (negb (Nat.eqb i k) && p t) || anyother_from (S i) r k p
   end.
-Definition anyother (s : sys) (k : nat) (p : th -> bool) : bool := anyother_from 0 s k p.
+Definition anyother (s : list th) (k : nat) (p : th -> bool) : bool := anyother_from 0 s k p.
+
+Definition nq (s : list th) (l : nat) : nat := length (filter (queued l) s).
 
 Definition finished (s : sys) (j : nat) : bool :=
-  match nth_error s j with Some u => match todo u with [] => true | _ => false end | None => true end.
+  match nth_error (ths s) j with Some u => match todo u with [] => true | _ => false end | None => true end.
 
 Definition enabled (s : sys) (k : nat) : bool :=
-  match nth_error s k with
+  match nth_error (ths s) k with
   | None => false
   | Some t =>
     match todo t with
     | [] => false
-    | GAcq R l :: _ => negb (anyother s k (fun u => holds W l u || announced l u))
+    | GAcq R l :: _ => if ann t then Nat.ltb 0 (gr s l) else true   (* an arriving reader gets in or queues *)
     | GAcq W l :: _ =>
-        if ann t then negb (anyother s k (fun u => holds_any l u))
-        else negb (anyother s k (fun u => holds W l u || announced l u))
+        if ann t then negb (anyother (ths s) k (holds_any l)) && Nat.eqb (gr s l) 0
+        else negb (anyother (ths s) k (writer l))
     | GRel _ _ :: _ => true
     | GWait js :: _ => forallb (finished s) js
+    | GUse _ _ :: _ => true
     end
   end.
 
@@ -77,23 +91,44 @@ Fixpoint upd {A} (l : list A) (i : nat) (x : A) : list A :=
   | h :: t, S i' => h :: upd t i' x
   end.
 
-Definition step_th (t : th) : th :=
+Definition setg (g : nat -> nat) (l v : nat) : nat -> nat := fun x => if Nat.eqb x l then v else g x.
+
+(* the goroutine's own part of a step; [direct]: an arriving reader gets in (no writer present, or
+   it consumes a wake-up), otherwise it queues *)
+Definition step_th (direct : bool) (t : th) : th :=
   match todo t with
   | [] => t
-  | GAcq R l :: r => {| todo := r; held := (R, l) :: held t; ann := false |}
+  | GAcq R l :: r => if ann t || direct then {| todo := r; held := (R, l) :: held t; ann := false |}
+                     else {| todo := todo t; held := held t; ann := true |}
   | GAcq W l :: r => if ann t then {| todo := r; held := (W, l) :: held t; ann := false |}
                      else {| todo := todo t; held := held t; ann := true |}
   | GRel m l :: r => {| todo := r; held := remove1 m l (held t); ann := ann t |}
   | GWait _ :: r => {| todo := r; held := held t; ann := ann t |}
+  | GUse _ _ :: r => {| todo := r; held := held t; ann := ann t |}
   end.
 
 (* the schedule names a goroutine; a blocked goroutine does not move *)
 Definition step (s : sys) (k : nat) : sys :=
-  if enabled s k then match nth_error s k with Some t => upd s k (step_th t) | None => s end else s.
+  if enabled s k then
+    match nth_error (ths s) k with
+    | None => s
+    | Some t =>
+      match todo t with
+      | GAcq R l :: _ =>
+          if ann t then {| ths := upd (ths s) k (step_th true t); gr := setg (gr s) l (gr s l - 1) |}
+          else if negb (anyother (ths s) k (writer l)) then {| ths := upd (ths s) k (step_th true t); gr := gr s |}
+          else if Nat.ltb 0 (gr s l) then {| ths := upd (ths s) k (step_th true t); gr := setg (gr s) l (gr s l - 1) |}
+          else {| ths := upd (ths s) k (step_th false t); gr := gr s |}
+      | GRel W l :: _ =>
+          {| ths := upd (ths s) k (step_th false t); gr := setg (gr s) l (gr s l + nq (ths s) l) |}
+      | _ => {| ths := upd (ths s) k (step_th false t); gr := gr s |}
+      end
+    end
+  else s.
 Definition run (s : sys) (sched : list nat) : sys := fold_left step sched s.
 
 Definition start (tr : list gop) : th := {| todo := tr; held := []; ann := false |}.
-Definition init (trs : list (list gop)) : sys := map start trs.
+Definition init (trs : list (list gop)) : sys := {| ths := map start trs; gr := fun _ => 0 |}.
 
 (* discipline of one goroutine's operations w.r.t. a rank of lock instances *)
 Fixpoint disc (rk : nat -> nat) (h : list (mode * nat)) (tr : list gop) : Prop :=
@@ -102,6 +137,7 @@ Fixpoint disc (rk : nat -> nat) (h : list (mode * nat)) (tr : list gop) : Prop :
   | GAcq m l :: r => (forall x, In x h -> rk (snd x) < rk l) /\ disc rk ((m, l) :: h) r
   | GRel m l :: r => In (m, l) h /\ disc rk (remove1 m l h) r
   | GWait _ :: r => h = [] /\ disc rk h r
+  | GUse w l :: r => (In (W, l) h \/ (w = false /\ In (R, l) h)) /\ disc rk h r
   end.
 Definition nowait (tr : list gop) : Prop := forall js, ~ In (GWait js) tr.
 
@@ -112,6 +148,7 @@ Inductive sk :=
 | Acq (m : mode) (c : nat)
 | Rel (m : mode) (c : nat)
 | Wait
+| Use (w : bool) (c : nat)  (* an access (w: a write) to data guarded by lock class c *)
 | Ret                       (* return (the translator has placed the deferred calls before it) *)
 | SetF                      (* from here on the root scope's closed flag is known to be set *)
 | Unless (b : sk)           (* b can only run while that flag is not known to be set *)
@@ -121,7 +158,7 @@ Inductive sk :=
 | Call (f : nat).
 
 (* operations of one execution, at the level of lock classes *)
-Inductive lop := LAcq (m : mode) (c : nat) | LRel (m : mode) (c : nat) | LWait.
+Inductive lop := LAcq (m : mode) (c : nat) | LRel (m : mode) (c : nat) | LWait | LUse (w : bool) (c : nat).
 
 Inductive outcome := Normal | Returned.
 
@@ -135,6 +172,7 @@ Inductive exec : sk -> bool -> list lop -> outcome -> bool -> Prop :=
 | EAcq m c fl : exec (Acq m c) fl [LAcq m c] Normal fl
 | ERel m c fl : exec (Rel m c) fl [LRel m c] Normal fl
 | EWait fl : exec Wait fl [LWait] Normal fl
+| EUse w c fl : exec (Use w c) fl [LUse w c] Normal fl
 | ERet fl : exec Ret fl [] Returned fl
 | ESetF fl : exec SetF fl [] Normal true
 | EUnlessSkip b fl : exec (Unless b) fl [] Normal fl
@@ -188,6 +226,7 @@ Fixpoint chk (fuel : nat) (b : sk) (a : ast) : res :=
     | Acq m c => if forallb (fun x => Nat.ltb (snd x) c) (fst a) then Some ([((m, c) :: fst a, snd a)], []) else None
     | Rel m c => if inheld m c (fst a) then Some ([(remove1 m c (fst a), snd a)], []) else None
     | Wait => match fst a with [] => Some ([a], []) | _ => None end
+    | Use w c => if inheld W c (fst a) || (negb w && inheld R c (fst a)) then Some ([a], []) else None
     | Ret => Some ([], [a])
     | SetF => Some ([(fst a, true)], [])
     | Unless b' => if snd a then Some ([a], [])
@@ -261,6 +300,7 @@ Fixpoint a_trace (fuel : nat) (b : sk) (fl : bool) : option (list lop * outcome 
     | Acq m c => Some ([LAcq m c], Normal, fl)
     | Rel m c => Some ([LRel m c], Normal, fl)
     | Wait => Some ([LWait], Normal, fl)
+    | Use w c => Some ([LUse w c], Normal, fl)
     | Ret => Some ([], Returned, fl)
     | SetF => Some ([], Normal, true)
     | Unless x => if fl then Some ([], Normal, fl) else
@@ -300,4 +340,8 @@ Fixpoint cdisc (h : list (mode * nat)) (tr : list lop) : option (list (mode * na
   | LAcq m c :: r => if forallb (fun x => Nat.ltb (snd x) c) h then cdisc ((m, c) :: h) r else None
   | LRel m c :: r => if existsb (fun x => mode_eqb (fst x) m && Nat.eqb (snd x) c) h then cdisc (remove1 m c h) r else None
   | LWait :: r => match h with [] => cdisc h r | _ => None end
+  | LUse w c :: r =>
+      if existsb (fun x => mode_eqb (fst x) W && Nat.eqb (snd x) c) h ||
+         (negb w && existsb (fun x => mode_eqb (fst x) R && Nat.eqb (snd x) c) h)
+      then cdisc h r else None
   end.
